@@ -13,6 +13,7 @@
 
 #include <cstdio>
 #include <cstdlib>
+#include <cstring>
 #include <thread>
 #include <vector>
 
@@ -32,8 +33,10 @@ static int find(const int* ids, int n, int tid) {
 static int picker(int cur, const int* ids, int n, int) {
   if (g_phase == 0) {
     if (g_b_tid >= 0 && cur == g_b_tid && g_b_in_alloc) {
-      // scheduling points of allocate(): before `ld head`, before `ld next[0]`, before the CAS
-      if (++g_b_points == 3) {
+      // B is at a scheduling point (= just before its next atomic operation) inside allocate(); once its
+      // relaxed load of `_free_next_value[0]` is in the trace the next operation is the CAS: stall here
+      ++g_b_points;
+      if (strstr(vrt_trace(), "\n1 ld next rlx ") != nullptr) {
         g_phase = 1;
         return find(ids, n, 0);
       }
@@ -50,6 +53,8 @@ int main(int argc, char** argv) {
   IdAllocator<uint16_t> alloc;
   alloc._free_next_value.ensure(127);
   vrt_unname_all();
+  vrt_name(&alloc._free_head, sizeof(alloc._free_head), "head");
+  vrt_name(&alloc._free_next_value.ensure(0), 128 * sizeof(uint16_t), "next");
   std::vector<int> owner(128, -1);
   int dups = 0;
   auto take = [&](int me) {
@@ -69,6 +74,7 @@ int main(int argc, char** argv) {
     alloc.deallocate(id);
   };
 
+  setenv("VRT_CAS_WEAK_FAIL", "0", 1);        // no injected spurious weak-CAS failures: the schedule is exact
   vrt_begin(1);
   vrt_set_picker(picker);
   printf("RUN 1 W=16 mode=wrap16 recycles=%ld\n", recycles);
@@ -78,6 +84,7 @@ int main(int argc, char** argv) {
   give(i0);                                   // head = (0, version 2); next[0] = 1; next[1] = tail
   VersionedValue<uint16_t> b_first, b_second;
   bool b_done = false;
+  g_b_tid = 1;                                // the first thread created inside the section
   std::thread tb([&] {
     g_b_in_alloc = true;
     b_first = take(vrt_tid());                // stalls before its CAS (picker), resumes in phase 2
@@ -87,9 +94,9 @@ int main(int argc, char** argv) {
     vrt_event("B second allocate returned %u@%u", (unsigned)b_second.value, (unsigned)b_second.version);
     b_done = true;
   });
-  g_b_tid = 1;
   while (g_phase == 0) sched_yield();
   vrt_event("B stalled before its CAS after %d scheduling points", g_b_points);
+  vrt_unname_all();                           // no atomic-level trace for the ~5*10^5 operations that follow
   auto a0 = take(0);                          // pops 0
   auto a1 = take(0);                          // pops 1; A keeps it
   vrt_event("A holds %u@%u and %u@%u", (unsigned)a0.value, (unsigned)a0.version, (unsigned)a1.value,
@@ -99,7 +106,14 @@ int main(int argc, char** argv) {
     a0 = take(0);
   }
   give(a0);                                   // `recycles` pushes of id 0 since B read the head
-  vrt_event("A recycled id 0 %ld times; head version now %u", recycles, (unsigned)alloc._free_head.version);
+  {
+    uint64_t raw = 0;
+    memcpy(&raw, &alloc._free_head, sizeof(alloc._free_head));
+    vrt_event("A recycled id 0 %ld times; head word now %lu (value %lu, version %lu)", recycles, (unsigned long)raw,
+              (unsigned long)(raw & 0xffff), (unsigned long)(raw >> 16));
+  }
+  vrt_name(&alloc._free_head, sizeof(alloc._free_head), "head");
+  vrt_name(&alloc._free_next_value.ensure(0), 128 * sizeof(uint16_t), "next");
   g_phase = 2;
   while (!b_done) sched_yield();
   tb.join();
